@@ -184,8 +184,14 @@ Record cfg := { heap_cap : N; snod_cap : N; soft_max : N;
   canon_group_key : bool;   (* CreateGroup trims one trailing slash before parsing / registering *)
   rc_rollback_fix : bool    (* writeV2RefCount also updates an existing RefCount message when the count is 1 *)
 }.
+(* the tree before any of the three repairs *)
+Definition base_cfg : cfg := {| heap_cap := 256; snod_cap := 32; soft_max := 244;
+                                strict_names := false; canon_group_key := false; rc_rollback_fix := false |}.
+(* /repo as it is now: the three repairs are in (4d95b56 trailing slash, and the commits "reject empty link
+   names ...", "restore the stored reference count ..."); the tie does not use this definition, it reads
+   the switches from the source *)
 Definition go_cfg : cfg := {| heap_cap := 256; snod_cap := 32; soft_max := 244;
-                              strict_names := false; canon_group_key := false; rc_rollback_fix := false |}.
+                              strict_names := true; canon_group_key := true; rc_rollback_fix := true |}.
 
 (* heap-level well-formedness of a link name: non-empty, no NUL byte *)
 Definition heap_name_ok (n : name) : bool :=
